@@ -54,6 +54,7 @@ func checkC08(p *Prog, r *Report) {
 	ruleC08IndexIsInteger(p, a, r, res)
 	ruleC08Pure(p, r, res)
 	ruleC08Unwrap(p, ResolveAnchors(p), r)
+	ruleC08Deref(p, ResolveAnchors(p), r)
 	r.Begin("R-C08-MACRO-ANCHORS", "macro body executor found by role", 1)
 	if ma := resolveMacroAnchors(p, a, r); ma != nil {
 		r.Trivial("anchors", "-", "%d macro body executor(s)", len(ma.bodies))
